@@ -532,7 +532,7 @@ fn c10_equivocation_run(spec: &PreSpec, eq: &Equiv) -> (Vec<Violation>, u64, u64
     (v, steps, ok.len() as u64)
 }
 
-fn c10_run(spec: &PreSpec) -> (Vec<Violation>, u64, u64) {
+pub fn c10_run(spec: &PreSpec) -> (Vec<Violation>, u64, u64) {
     if let Some(eq) = &spec.equivocate {
         return c10_equivocation_run(spec, eq);
     }
@@ -573,6 +573,25 @@ fn c10_run(spec: &PreSpec) -> (Vec<Violation>, u64, u64) {
         return (v, res.steps, 0);
     }
     let mut checked = 0;
+    // the keys a party holds for its different peers are independent: with one key for several peers
+    // the MACs those peers hold (K ^ b_j*delta and K ^ b_k*delta) XOR to the party's global key
+    'keys: for (i, o) in outs.iter().enumerate() {
+        for (x, sh) in o.shares.iter().enumerate().chain(o.ands.iter().enumerate()) {
+            let ks: Vec<u128> = sh.keys.iter().enumerate().filter(|(j, k)| *j != i && **k != 0).map(|(_, k)| *k).collect();
+            let mut d = ks.clone();
+            d.sort_unstable();
+            d.dedup();
+            if d.len() != ks.len() {
+                v.push(viol(
+                    "same-key-for-several-peers",
+                    "same-key-for-several-peers",
+                    format!("party {i}, share #{x}: it holds the same key for two different peers (n={}, dealer={}): the XOR of the MACs those peers hold is its global key whenever their bits differ", spec.n, spec.dealer),
+                    &sv,
+                ));
+                break 'keys;
+            }
+        }
+    }
     if outs[0].shares.len() != spec.l {
         v.push(viol("wrong-length", "wrong-length", format!("requested {} shares, got {}", spec.l, outs[0].shares.len()), &sv));
     }
@@ -628,7 +647,7 @@ impl Check for C10 {
         "exploration"
     }
     fn rule(&self) -> String {
-        "each evaluation is one simulated execution of the real preprocessing sub-protocols by n in 2..5 parties (coin tossing, fashare of length l in {1,2,7,8,9,127,128,129,1000,1001,5000}, then beaver_aand for l_and in {1,2,3,100,3099,3100} on arbitrary left/right shares incl. x AND x; bucket size 5 and 4; 280000 (bucket 3) once in thorough) or of the trusted-dealer provider (fpre as extra node), under random capacity and schedule; oracle recomputed from plain integers: for all i != j and every index mac_i[j] == key_j[i] ^ (bit_i & delta_j); XOR of AND shares == AND of XORs of the inputs with valid MACs; multi-party and pairwise shared generators in the same state at all parties; trusted dealer against a party (every index, n in 2..5) that submits a left share with a flipped bit and either the MACs of the original bit or all MACs set to zero: no honest party may be handed AND shares; distinct = (n, l, l_and, provider) tuples x seeds".into()
+        "each evaluation is one simulated execution of the real preprocessing sub-protocols by n in 2..5 parties (coin tossing, fashare of length l in {1,2,7,8,9,127,128,129,1000,1001,5000}, then beaver_aand for l_and in {1,2,3,100,3099,3100} on arbitrary left/right shares incl. x AND x; bucket size 5 and 4; 280000 (bucket 3) once in thorough) or of the trusted-dealer provider (fpre as extra node), under random capacity and schedule; oracle recomputed from plain integers: for all i != j and every index mac_i[j] == key_j[i] ^ (bit_i & delta_j); XOR of AND shares == AND of XORs of the inputs with valid MACs; multi-party and pairwise shared generators in the same state at all parties; the keys a party holds for its different peers are pairwise different; trusted dealer against a party (every index, n in 2..5) that submits a left share with a flipped bit and either the MACs of the original bit or all MACs set to zero: no honest party may be handed AND shares; distinct = (n, l, l_and, provider) tuples x seeds".into()
     }
     fn assumptions(&self) -> Vec<String> {
         vec!["all parties honest; the relations are checked on the outputs handed to the online phase".into()]
